@@ -86,6 +86,10 @@ fn run_alphabet(sz: Sz) -> Vec<TOp> {
         TOp::RemRun(0, 7),
         TOp::RemRun(1, 7),
         TOp::RemRun(2, 14),
+        // the same through Btree::remove_tuple, the removal path of VACUUM and of the catalogue
+        TOp::RemRunT(0, 7),
+        TOp::RemRunT(0, 14),
+        TOp::RemRunT(1, 7),
         TOp::Put(1, Sz::Tiny),
         TOp::Put(5, sz),
         TOp::Remove(5),
